@@ -52,7 +52,11 @@ GridExtras(dummy) ==
 (* kinds *)
 Reps(dummy) == { Lit(IntV(6)), Lit(IntV(0)), Lit(Rat(1, 2)), UnE("-", Lit(IntV(3))), Lit(BoolV(TRUE)), Lit(StrV("a")),
           SetE(<<Lit(IntV(1)), Lit(IntV(2))>>), SetE(<<Lit(IntV(2)), Lit(IntV(5))>>), SetE(<<Lit(StrV("a"))>>),
-          SetE(<<SetE(<<Lit(IntV(1))>>)>>), SetE(<<>>), SetE(<<Lit(IntV(1)), Lit(BoolV(TRUE))>>), SetE(<<Lit(BoolV(TRUE))>>) }
+          SetE(<<SetE(<<Lit(IntV(1))>>)>>), SetE(<<>>), SetE(<<Lit(IntV(1)), Lit(BoolV(TRUE))>>), SetE(<<Lit(BoolV(TRUE))>>),
+          SetE(<<SetE(<<Lit(IntV(1))>>), SetE(<<Lit(IntV(1)), Lit(IntV(2))>>)>>),                      \* a chain of sets
+          SetE(<<SetE(<<Lit(IntV(1))>>), SetE(<<Lit(IntV(2))>>)>>),                                    \* incomparable sets
+          SetE(<<Lit(StrV("a")), Lit(StrV("b"))>>), SetE(<<Lit(BoolV(TRUE)), Lit(BoolV(FALSE))>>),
+          Lit(TypeV("uint8")), SetE(<<Lit(TypeV("uint8")), Lit(TypeV("uint16"))>>), SetE(<<Lit(TypeV("uint8"))>>) }
 
 (* trees *)
 RatL == { Lit(IntV(2)), Lit(IntV(5)), Lit(Rat(3, 2)) }
@@ -112,6 +116,6 @@ Next == Pick1 \/ Pick2 \/ Complete
 Spec == Init /\ [][Next]_vars
 
 \* redundant parentheses never change the meaning, and the value is one of the known forms
-WellFormedValue == ph = 9 => out.v.t \in {"rat", "bool", "str", "set", "err", "skip"}
+WellFormedValue == ph = 9 => out.v.t \in {"rat", "bool", "str", "set", "type", "err", "skip"}
 RatNormal == ph = 9 /\ out.v.t = "rat" => out.v.d > 0 /\ Gcd(Abs(out.v.n), out.v.d) = 1
 =============================================================================
